@@ -559,7 +559,12 @@ fn gen_spans(rng: &mut SmallRng, l: usize, spans: &[usize], start: usize, rag: u
     for &sp in spans {
         assert!(sp >= per);
         ones.push(cur);
-        ones.extend(distinct_in(rng, per - 1, cur + 1, cur + sp));
+        if per >= 2 {
+            // the last position of the span always holds a one: its offset
+            // (sp - 1) is the largest a subinventory entry can have to store
+            ones.extend(distinct_in(rng, per - 2, cur + 1, cur + sp - 1));
+            ones.push(cur + sp - 1);
+        }
         cur += sp;
     }
     let rag = rag.clamp(1, per).min(tail);
@@ -850,6 +855,10 @@ fn main() {
     let big = thorough && !small && ctx.build == "UBC";
     let mut run = Runner::new(ctx);
     let variants = all_variants();
+    let t0 = std::time::Instant::now();
+    let mut stage = |run: &mut Runner, name: &str| {
+        run.ctx.note(&format!("cpu_secs_until_end_of/{}", name), &format!("{:.2}", t0.elapsed().as_secs_f64()));
+    };
 
     if small {
         // Miri / valgrind / ASan-small: every variant, short vectors, few ranks
@@ -891,6 +900,7 @@ fn main() {
             }
         }
     }
+    stage(&mut run, "1-generic-fresh");
     // 2. stale tails: each (variant, tail state) in cases of its own
     let stale_pats = [pat("dens0"), pat("dens2^-6"), pat("dens0.5"), pat("dens1-2^-6"), pat("dens1"), pat("runs40"), pat("single-last")];
     for v in &variants {
@@ -902,6 +912,7 @@ fn main() {
             }
         }
     }
+    stage(&mut run, "2-generic-stale");
     // 3. strata aimed at the inventories
     for v in &variants {
         let ls: Vec<usize> = match v.fixed_l() {
@@ -924,6 +935,7 @@ fn main() {
             aimed_case(&mut run, v, Aim::Sel9Spans(g), 9, Tail::Fresh, 1);
         }
     }
+    stage(&mut run, "3-aimed");
     // 4. medium lengths around 2^16 / 2^17 bits, all patterns
     for v in &variants {
         for (class, lens) in [("len2^16+-1", [65535usize, 65536, 65537]), ("len2^17+-1", [131071, 131072, 131073])] {
@@ -932,10 +944,12 @@ fn main() {
             }
         }
     }
+    stage(&mut run, "4-medium");
     // 5. gaps of 2^32-1, 2^32, 2^32+1 bits (64-bit span encoding), 2^33+ bits
     if big {
         big_cases(&mut run, &variants);
     }
+    stage(&mut run, "5-big");
     // 6. random rounds
     let rounds = run.ctx.scale(1, 2000, 20000);
     for round in 0..rounds {
@@ -979,5 +993,6 @@ fn main() {
             break;
         }
     }
+    stage(&mut run, "6-random");
     run.ctx.finish();
 }
